@@ -9,7 +9,7 @@ THEOREMS = [
     "C23_unpad_pad", "C23_pad_length", "C23_cbc", "C23_cfb", "C23_ofb", "C23_ctr", "C23_roundtrip",
     "C23_names_paired", "C23_accepted_alike", "C23_cipher_length", "C23_hypotheses_satisfiable",
     "C23_ip_roundtrip", "C23_pfx_invertible", "C23_ip_roundtrip_pfx", "C23_ip_text_parses", "C23_ip_mapped_refuted", "C23_ip_pfx_collision_refuted",
-    "C23_ip_pfx_equal_halves_refuted", "C23_ip_hypotheses_satisfiable",
+    "C23_ip_pfx_equal_halves_rejected", "C23_ip_hypotheses_satisfiable",
 ]
 IMPORTS = ("From Coq Require Import String.\nFrom Coq Require Import List NArith ZArith.\n"
            "From VRL Require Import Base.Bytes Base.Lit Model.Padding Model.Modes Model.Aes Model.Ip Model.CipherGlue Model.IpPfx "
@@ -26,9 +26,9 @@ MANIFEST = {
             "every accepted spelling of all 32 algorithm names (names are upper-cased first: lower case, dotless i and long s "
             "are accepted too), any plaintext, any key/IV of the sizes the name requires; the three Rust tables (match of "
             "encrypt, match of decrypt, is_valid_algorithm) agree on every name; ciphertext lengths. encrypt_ip/decrypt_ip: "
-            "round trip for every address and both modes outside three classes that are refuted with witnesses (IPv4-mapped "
+            "round trip for every address and both modes outside two classes that are refuted with witnesses (IPv4-mapped "
             "IPv6 addresses come back as IPv4; pfx: an IPv6 address whose encryption is IPv4-mapped is decrypted in 32-bit "
-            "mode; pfx keys with two equal halves panic). The models are compared with the implementation on ciphertext "
+            "mode); pfx keys with two equal halves are refused with a key error (C23_ip_pfx_equal_halves_rejected). The models are compared with the implementation on ciphertext "
             "BYTES for all AES names (the abstract cipher instantiated with a Gallina FIPS-197 AES) and on outcome classes and "
             "lengths for the AEADs; decrypt(encrypt(p)) = p is searched directly on the implementation for all names, "
             "plaintext lengths 0..48 and random up to 1 KiB, right and wrong key/IV sizes, and all address kinds.",
@@ -39,8 +39,9 @@ MANIFEST = {
             "crates) ARE modelled and proved. Model/Aes.v is used only to instantiate the cipher in the correspondence run "
             "(pinned to FIPS-197 appendix C vectors), no theorem depends on it. str::to_uppercase is modelled for ASCII + "
             "U+0131 + U+017F (the only characters that upper-case into a single ASCII letter). Known findings: "
-            "IPv4-mapped IPv6 not round-tripped, pfx IPv4-mapped ciphertext collision, pfx equal-halves key panic. Outside the "
-            "property but found: decrypt panics on an AEAD/SIV authentication failure (model mirrors the panic). "
+            "IPv4-mapped IPv6 not round-tripped, pfx IPv4-mapped ciphertext collision. Repaired in /repo and followed here: "
+            "pfx equal-halves key panic (fb618e6, now a key error), decrypt panic on an AEAD/SIV authentication failure "
+            "(a3fbb82, now `Invalid input`). "
             "No axioms (Print Assumptions: closed).",
     "design_ref": "DESIGN.md section 5 C23",
 }
@@ -296,8 +297,6 @@ def known_matcher(entry, c, o):
         return False
     mode = bytes.fromhex(hexof(c["mode"]))
     key = bytes.fromhex(hexof(c["k"]))
-    if cls == "ip-pfx-equal-halves-panic":
-        return mode == b"pfx" and len(key) == 32 and key[:16] == key[16:] and "panic" in (o.get("enc") or {})
     if c.get("pre"):
         ip = _ok_text(o.get("pre"))
     else:
